@@ -8,7 +8,7 @@
    row_top / row_bottom), Box/TableGridSpec.v. *)
 From Verif Require Import Base.F32 Base.GoSem Box.TableGrid Box.TableGridSpec Box.TableGridProofs
   Box.TableGridPlain Box.TableGridPlainProofs Layout.TableGeom Layout.TableGeomSpec Layout.TableGeomProofs
-  Layout.TableGeomAuto Layout.TableGeomAutoProofs Layout.TableAutoContract.
+  Layout.TableGeomAuto Layout.TableGeomAutoProofs Layout.TableAutoContract Layout.TableAutoContractNonneg.
 From Coq Require Import QArith List ZArith Permutation.
 Import ListNotations.
 Open Scope Q_scope.
@@ -371,6 +371,62 @@ Example C13_example_auto_contract :
   model_auto_layout 300 200 true 2 [10; 20] [100; 60] = (200, [234 # 2; 154 # 2]) /\
   auto_contract 0 200 200 2 true [234 # 2; 154 # 2] = true.
 Proof. exact model_auto_layout_example_specified. Qed.
+
+(* partial3 (Layout/TableAutoContractNonneg.v): the conclusion of
+   C13_auto_layout_contract_statement for model_auto_layout, reduced to its
+   single open conjunct.  Class covered: every input with at least one column,
+   as many max- as min-content widths, ON WHICH THE RETURNED WIDTHS ARE NON
+   NEGATIVE (branch condition = explicit hypothesis on the result; it is NOT
+   derived from 0 <= mins <= maxs, 0 <= bsx here: that derivation through
+   the interpolation / distributeExcessWidth branches remains unproved). *)
+Theorem C13_auto_layout_contract_partial3 : forall avail spec has bsx mins maxs,
+  mins <> [] -> length mins = length maxs ->
+  let '(table_w, widths) := model_auto_layout avail spec has bsx mins maxs in
+  Forall (fun w => 0 <= w) widths ->
+  length widths = length mins /\ auto_contract 0 table_w spec bsx has widths = true.
+Proof. exact model_auto_layout_contract_of_nonneg. Qed.
+Print Assumptions C13_auto_layout_contract_partial3.
+
+(* its hypotheses (the one on the result included) are inhabited *)
+Example C13_example_auto_contract_nonneg :
+  model_auto_layout 300 0 false 2 [10; 20] [100; 60] = (166, [100; 60]) /\
+  Forall (fun w => 0 <= w) [100; 60] /\
+  auto_contract 0 166 0 2 false [100; 60] = true.
+Proof. exact model_auto_layout_nonneg_example. Qed.
+
+(* partial4: a branch where the WHOLE conclusion of
+   C13_auto_layout_contract_statement follows from sign hypotheses on the inputs
+   only.  Class covered: at least one column, 0 <= mins, 0 <= maxs, equal
+   lengths, and autoTableLayout takes the branch of tables.go:976 + 997-998
+   (assignable width <= sum of the last guess, lower guess = upper guess; for
+   these columns: the table gets its max-content width).  The other branches
+   (interpolation 1000-1013, distributeExcessWidth 1016-1046) are NOT covered. *)
+Theorem C13_auto_layout_contract_partial4 : forall avail spec (has : bool) bsx mins maxs,
+  mins <> [] -> length mins = length maxs ->
+  Forall (fun w => 0 <= w) mins -> Forall (fun w => 0 <= w) maxs ->
+  let spacing := inject_Z (Z.of_nat (S (length mins))) * bsx in
+  let tmin := sumQ mins + spacing in
+  let tmax := Qmax_ tmin (sumQ maxs + spacing) in
+  let W := used_width (if has then Some spec else None) avail tmin tmax in
+  let cols := contract_cols mins maxs in
+  let a := sub exactQ W spacing in
+  let guesses := [map ac_min cols; map (guess1 exactQ a) cols; map (guess2 exactQ a) cols; map (guess3 exactQ a) cols] in
+  Qle_b a (sumf exactQ (map (guess3 exactQ a) cols)) = true ->
+  Nat.eqb (upper_index a (map (sumf exactQ) guesses)) (lower_index a (map (sumf exactQ) guesses) 0 0) = true ->
+  let '(table_w, widths) := model_auto_layout avail spec has bsx mins maxs in
+  length widths = length mins /\ auto_contract 0 table_w spec bsx has widths = true.
+Proof. exact model_auto_layout_same_guess_contract. Qed.
+Print Assumptions C13_auto_layout_contract_partial4.
+
+(* the branch condition is inhabited (input of C13_example_auto_contract_nonneg) *)
+Example C13_example_auto_contract_branch :
+  let spacing := inject_Z (Z.of_nat 3) * 2 in
+  let a := sub exactQ (used_width None 300 (30 + spacing) (Qmax_ (30 + spacing) (160 + spacing))) spacing in
+  let cols := contract_cols [10; 20] [100; 60] in
+  let guesses := [map ac_min cols; map (guess1 exactQ a) cols; map (guess2 exactQ a) cols; map (guess3 exactQ a) cols] in
+  Qle_b a (sumf exactQ (map (guess3 exactQ a) cols)) = true /\
+  Nat.eqb (upper_index a (map (sumf exactQ) guesses)) (lower_index a (map (sumf exactQ) guesses) 0 0) = true.
+Proof. exact model_auto_layout_same_guess_example. Qed.
 
 (* the hypotheses are inhabited *)
 Example C13_example_fixed :
